@@ -437,6 +437,17 @@ theorem run_f64 (n : Nat) (bs : Bytes) :
     shortCountSpecialFloat32Bit, shortCountSpecialFloat64Bit]
   split <;> simp_all
 
+theorem run_other (sc n : Nat) (bs : Bytes) (h : sc < 20 ∨ sc = 23) :
+    runMajor fix dec lf 7 sc n bs = .ok (.null, false, bs) := by
+  have e1 : ¬ sc = 20 := by omega
+  have e2 : ¬ sc = 21 := by omega
+  have e3 : ¬ sc = 25 := by omega
+  have e4 : ¬ sc = 26 := by omega
+  have e5 : ¬ sc = 27 := by omega
+  simp [runMajor, majorTypePositiveInt, majorTypeNegativeInt, majorTypeBytes, majorTypeUTF8, majorTypeArray,
+    majorTypeMap, majorTypeSematic, shortCountSpecialFalse, shortCountSpecialTrue, shortCountSpecialFloat16Bit,
+    shortCountSpecialFloat32Bit, shortCountSpecialFloat64Bit, e1, e2, e3, e4, e5]
+
 end special
 
 theorem decT_special (fix : Bool) (f sc : Nat) (bs : Bytes) (hs : sc < 32) :
@@ -586,6 +597,10 @@ theorem startsOK_encode (x : W) (hv : valid x = true) : StartsOK breakMarker (en
   | f16 p => exact ⟨_, _, rfl, byte_ne_break _ (by omega)⟩
   | f32 p => exact ⟨_, _, rfl, byte_ne_break _ (by omega)⟩
   | f64 p => exact ⟨_, _, rfl, byte_ne_break _ (by omega)⟩
+  | undefined => exact ⟨_, _, rfl, byte_ne_break _ (by omega)⟩
+  | simple n =>
+    simp only [valid, decide_eq_true_eq] at hv
+    exact ⟨_, _, rfl, byte_ne_break _ (by omega)⟩
 
 theorem dropRet_ok (v : V) (b : Bool) (r : Bytes) : dropRet (.ok (v, b, r)) = .ok (v, r) := rfl
 theorem dropRet_err (e : Err) : dropRet (.err e) = .err e := rfl
@@ -621,6 +636,11 @@ theorem rt_step (fix : Bool) (f : Nat)
   | f64 p =>
     simp only [valid, decide_eq_true_eq] at hv
     exact float_rt fix f 27 8 .float p rest (by omega) (run_f64 fix _ _ _) (by rw [pow8]; exact hv)
+  | undefined => exact (decT_special fix f 23 rest (by omega)).trans (run_other fix _ _ _ _ _ (Or.inr rfl))
+  | simple n =>
+    simp only [valid, decide_eq_true_eq] at hv
+    simp only [encode, value, retOf, List.cons_append, List.nil_append]
+    rw [show 0xe0 + n = 7 * 32 + n by omega, decT_special fix f n rest (by omega), run_other fix _ _ _ _ _ (Or.inl hv)]
   | bytesI cs =>
     have hfix : fix = true := by
       rcases hfx with h | h
@@ -743,6 +763,8 @@ theorem pf_step (fix : Bool) (f : Nat)
     exact pf_strlike fix f 3 (Or.inr rfl) h s hv.1.1 hv.1.2 k hk
   | bool b => simp [encode] at hk; subst hk; rfl
   | null => simp [encode] at hk; subst hk; rfl
+  | undefined => simp [encode] at hk; subst hk; rfl
+  | simple n => simp [encode] at hk; subst hk; rfl
   | f16 p => exact float_pf fix f 25 2 (fun p => .float (widen16 p)) p (by omega) (run_f16 fix _ _ _) k hk
   | f32 p => exact float_pf fix f 26 4 (fun p => .float (widen32 p)) p (by omega) (run_f32 fix _ _ _) k hk
   | f64 p => exact float_pf fix f 27 8 .float p (by omega) (run_f64 fix _ _ _) k hk
@@ -875,6 +897,8 @@ theorem reprOK_value : ∀ x, valid x = true → reprOK (value x) = true
   | .f16 _, _ => by simp [value, reprOK]
   | .f32 _, _ => by simp [value, reprOK]
   | .f64 _, _ => by simp [value, reprOK]
+  | .undefined, _ => by simp [value, reprOK]
+  | .simple _, _ => by simp [value, reprOK]
   | .arr _ xs, h => by
     simp only [valid, Bool.and_eq_true] at h
     simp [value, reprOK, reprOKL_value xs h.2]
